@@ -88,7 +88,7 @@ class BaseFacility(object, metaclass=abc.ABCMeta):
         cost_per_time=0.0,
         solo_working=False,
         workamount_skill_mean_map={},
-        workamount_skill_sd_map={},
+        workamount_skill_sd_map=None,
         absence_time_list=None,
         # Basic variables
         state=BaseFacilityState.FREE,
